@@ -230,11 +230,11 @@ fn family<O>(
 
 pub fn parts(ctx: &mut Ctx) {
     let len = ctx.scale(5, 6);
-    let n = ctx.scale(12_000, 200_000);
+    let n = ctx.scale(12_000, 400_000);
     family(ctx, "vec", vop_alphabet(), len, 1, &[1, 2, 3], vop_strategy(), n, run_vec);
     family(ctx, "queue", qop_alphabet(), ctx.scale(6, 7), 2, &[1, 2, 3], qop_strategy(), n, run_queue);
     family(ctx, "slotmap", sop_alphabet(), len, 1, &[1, 2, 3], sop_strategy(), n, run_slotmap);
     family(ctx, "flatmap", fop_alphabet(), len, 1, &[1, 2, 3], fop_strategy(), n, run_flatmap);
-    family(ctx, "string", strop_alphabet(), len, 1, &[0, 1, 2, 3], strop_strategy(), n, run_string);
+    family(ctx, "string", strop_alphabet(), len, 1, &[1, 2, 3], strop_strategy(), n, run_string);
     family(ctx, "option", oop_alphabet(), len, 1, &[1], oop_strategy(), n, run_option);
 }
